@@ -15,12 +15,12 @@ ID_COLS = ("hh_id", "wthh_id", "fg_id", "bg_id", "eg_id", "ehe_id", "sn_id")
 
 def same_partition(a, b) -> bool:
     """Mutual functional dependency between two id vectors."""
-    a = np.asarray(a)
-    b = np.asarray(b)
+    a = a.tolist() if isinstance(a, np.ndarray) else list(a)
+    b = b.tolist() if isinstance(b, np.ndarray) else list(b)
     if len(a) != len(b):
         return False
     fwd, bwd = {}, {}
-    for x, y in zip(a.tolist(), b.tolist()):
+    for x, y in zip(a, b):
         if fwd.setdefault(x, y) != y or bwd.setdefault(y, x) != x:
             return False
     return True
